@@ -46,3 +46,10 @@ pub use cli::Cli;
 pub use generator::Generator;
 pub use mutators::{EmissionSnapshot, Mutator, MutatorKind};
 pub use protocol::Version;
+
+/// verification hooks (feature `verif-hooks`): trace recorder and entropy-source re-exports.
+#[cfg(feature = "verif-hooks")]
+pub mod verif {
+    pub use crate::generator::verif::{set_aliases, start, take};
+    pub use crate::generator::{EntropySource, GenerationSource};
+}
